@@ -17,6 +17,7 @@ type Op struct {
 	K string `json:"k"`
 	R string `json:"r"`
 	I *int   `json:"i,omitempty"`
+	S string `json:"s,omitempty"` // string index (used when I is nil and S != "")
 	V string `json:"v,omitempty"`
 }
 
@@ -24,6 +25,8 @@ func (o Op) String() string {
 	s := o.K + " " + o.R
 	if o.I != nil {
 		s += fmt.Sprintf("[%d]", *o.I)
+	} else if o.S != "" {
+		s += fmt.Sprintf("[%q]", o.S)
 	}
 	if o.K == "w" {
 		s += " " + o.V
@@ -122,6 +125,8 @@ func (s *Script) body(sec int) func(iface distsys.ArchetypeInterface) error {
 			var idx []tla.Value
 			if o.I != nil {
 				idx = []tla.Value{tla.MakeNumber(int32(*o.I))}
+			} else if o.S != "" {
+				idx = []tla.Value{tla.MakeString(o.S)}
 			}
 			switch o.K {
 			case "r":
